@@ -4,6 +4,7 @@ import re, json
 import z3
 from .lib import *
 from .report import Candidate, Broken
+from .mirsym import Unmodelled
 from .scen_kernels import s_str_index, PANICS as KPANICS
 
 
@@ -579,3 +580,138 @@ def preset_collection(ctx):
             r = run_jawk(ctx, argv, b'1')
             if r['rc'] == 0:
                 c.replay = {'argv': argv, 'rc': 0, 'stdout': show(r['stdout'])}; c.status = 'reproduced'; break
+
+
+# ---------------------------------------------------------------- map / filter: each element in its own derived context
+def functional(ctx):
+    """(map L f) / (filter L f): f is evaluated once per element, in order, in the context `current.with_inupt(element)`
+    (so `.` is the element and `^` the enclosing input); map keeps the values f yields (nothing is dropped), filter keeps
+    the elements for which f is exactly true"""
+    run = ctx.run
+    K = 3
+    run.bounds['map/filter'] = f'lists of 0..{K} opaque elements; the function argument answers a value / true / false / nothing per element'
+    fam = run.family('fn.map_filter', 'map and filter evaluate their function once per element, in order, with the element as input and the current input as parent; map collects the values yielded, filter keeps exactly the elements answered with true')
+    JV = ctx.enums['JsonValue']
+
+    def run_closure(ex, st, body, cargs):
+        saved = st.frames; st.frames = []
+        st.status = 'running'; ex.new_frame(st, body, cargs)
+        outs = []
+        for r_ in ex.run(st):
+            if r_.status == 'returned':
+                r_.frames = [dict(f) for f in saved]; r_.status = 'running'; outs.append((r_, r_.ret))
+            elif r_.status != 'infeasible':
+                r_.frames = [dict(f) for f in saved]; outs.append((r_, None))
+        return outs
+
+    def closure_of(ex, st):
+        parent = st.frames[-1]['fn'].name
+        cs = [n for n in ex.fns if n.startswith(parent + '::{closure#')]
+        if len(cs) != 1: raise Unmodelled(f'closures of {parent}: {cs}')
+        return ex.fns[cs[0]]
+
+    def s_adapt(kind):
+        def adapt(ex, st, func, args, ty):
+            it = obj(st, args[0]); o = named(st, st.fresh_name(kind), kind)
+            st.heap[o.oid]['lazy'] = (kind, list(st.heap[it.oid]['model']), args[1], closure_of(ex, st)); return [(st, o)]
+        adapt.__name__ = 'iter_' + kind
+        return adapt
+
+    def s_collect(ex, st, func, args, ty):
+        o = obj(st, args[0]); kind, items, clo, body = st.heap[o.oid]['lazy']
+        states = [(st, [])]
+        for it in items:
+            nxt = []
+            for s_, acc in states:
+                arg = it if kind == 'filter_map' else slot(s_, it)
+                for s2, r in run_closure(ex, s_, body, [slot(s2_clo(s_, clo), 'clo*') if False else slot(s_, clo, 'clo*'), arg]):
+                    if r is None: nxt.append((s2, acc)); continue
+                    if kind == 'filter_map':
+                        r = obj(s2, r); d = cval(ex.discr(s2, r).t)
+                        nxt.append((s2, acc + [s2.heap[r.oid][('f', 'Some', 0)]] if d == 1 else acc))
+                    else:
+                        c = r.t
+                        if ex.feasible(s2, c):
+                            s3 = s2.clone(); s3.pc.append(c); nxt.append((s3, acc + [it]))
+                        if ex.feasible(s2, z3.Not(c)):
+                            s2.pc.append(z3.Not(c)); nxt.append((s2, acc))
+            states = nxt
+        return [(s_, seqobj(s_, 'Vec', acc)) for s_, acc in states]
+
+    def s2_clo(st, clo): return clo
+
+    def dyn_get_factory(shapes):
+        def dyn_get(ex, st, func, args, ty):
+            c = obj(st, args[1]); out = []
+            n = sum(1 for e in st.events if e[0] == 'eval')
+            for sh in shapes:
+                s2 = st.clone(); s2.events.append(('eval', origin(s2, args[0]), s2.heap[c.oid].get('chain', origin(s2, c)), sh))
+                if sh == 'none': out.append((s2, none(s2)))
+                elif sh in ('true', 'false'): out.append((s2, some(s2, mk_enum(s2, 'JsonValue', JV.index('Boolean'), 'Boolean', (BoolV(z3.BoolVal(sh == 'true')),)))))
+                else:
+                    v = named(s2, f'R{n}', 'JsonValue'); s2.heap[v.oid]['discr'] = BV(z3.BitVecVal(JV.index('Number'), 64), True)      # a value that is not a boolean
+                    out.append((s2, some(s2, v)))
+            return out
+        return dyn_get
+
+    def s_with_input(ex, st, func, args, ty):
+        src = obj(st, args[0]); v = obj(st, args[1])
+        o = named(st, st.fresh_name('ctx'), 'Context'); st.heap[o.oid]['chain'] = ('with_input', origin(st, src), origin(st, v)); return [(st, o)]
+
+    from .scen_kernels import make_summaries, show as kshow, mk_array
+    for name, shapes in (('map', ('value', 'none')), ('filter', ('true', 'false', 'none', 'value'))):
+        body_rx = r'list::functional::%s::get::\{closure#0\}::<impl at [^>]*>::get$' % name
+        for k in range(K + 1):
+            table = {0: lambda st, ex, k=k: mk_array(st, ex, k)}
+            summ = [(r'<dyn Get as Get>::get$', dyn_get_factory(shapes)), (r'Context::with_inupt$', s_with_input), (r'as Iterator>::filter_map::<', s_adapt('filter_map')), (r'as Iterator>::filter::<', s_adapt('filter')),
+                    (r'as Iterator>::collect::<Vec<JsonValue>>$', s_collect)] + [x for x in make_summaries(table) if 'dyn Get as Get' not in x[0] and 'collect' not in x[0]]
+            # the second argument goes through Arguments::apply -> Vec::get -> dyn get: inline apply
+            inl = [(r'Arguments>::apply$', r'^functions_definitions::<impl at [^>]*>::apply$')]
+            ex = ctx.exec(summaries=[s_ for s_ in summ if 'Arguments>::apply' not in s_[0]], inline=inl, max_visits=4 * K + 12)
+            F = ex.find(body_rx)
+            st = State(); so = named(st, 'self', 'Impl'); selfref = slot(st, so, 'self*')
+            g0 = named(st, 'G0', 'Rc<dyn Get>'); st.heap[g0.oid]['const_arg'] = True
+            st.heap[so.oid][('f', None, 0)] = seqobj(st, 'Vec', [g0, named(st, 'G1', 'Rc<dyn Get>')], origin='self.0')
+            c0 = named(st, 'CTX', 'Context')
+            # G0 yields the list; G1 is the function argument
+            def dyn_get2(ex, st, func, args, ty, base=dyn_get_factory(shapes), k=k):
+                if origin(st, args[0]) == 'G0': return [(st, some(st, mk_array(st, ex, k)))]
+                return base(ex, st, func, args, ty)
+            ex.summaries.insert(0, (r'<dyn Get as Get>::get$', dyn_get2))
+            ex.summaries.insert(0, (r'impl \[.*\]>::get::<usize>$|Vec::<.*>::get::<usize>$', __import__('vf.scen_kernels', fromlist=['s_vec_get']).s_vec_get))
+            ex.new_frame(st, F, [selfref, slot(st, c0, 'ctx*')])
+            for d in ex.run(st):
+                run.paths += 1
+                if d.status == 'infeasible': continue
+                fam.obligations += 1; fam.paths += 1; fam.witnesses += 1
+                why = None
+                if d.status != 'returned': why = f'{d.status} {d.notes[-1:]}'
+                else:
+                    evs = [e for e in d.events if e[0] == 'eval' and e[1] == 'G1']
+                    if len(evs) != k: why = f'the function is evaluated {len(evs)} times for {k} elements'
+                    elif [e[2] for e in evs] != [('with_input', 'CTX', f'E{i}') for i in range(k)]: why = f'evaluation contexts are {[e[2] for e in evs]}'
+                    else:
+                        got = kshow(d, ex, d.heap[obj(d, d.ret).oid][('f', 'Some', 0)]) if cval(ex.discr(d, obj(d, d.ret)).t) == 1 else None
+                        if name == 'map':
+                            exp = [f'R{i}' for i, e in enumerate(evs) if e[3] == 'value']
+                            # result names are R<n> with n the running count of evaluations
+                            exp = [f'R{j}' for j, e in enumerate(evs) if e[3] == 'value']
+                        else:
+                            exp = [f'E{i}' for i, e in enumerate(evs) if e[3] == 'true']
+                        if got is None or got[0] != 'array' or got[1] != exp: why = f'answers {[e[3] for e in evs]} give {got}, expected {exp}'
+                if why is None: fam.discharged += 1
+                elif not any(c.role == name for c in fam.candidates):
+                    fam.candidates.append(Candidate(fam.name, name, f'({name} <list of {k}> f): {why}', {'fn': name, 'k': k}, unmodelled=(d.havoc or [None])[0]))
+            run.absorb(ex)
+    if fam.discharged: fam.add_sample({'call': '(map [E0,E1,E2] f)', 'contexts': "CTX.with_inupt(E0), CTX.with_inupt(E1), CTX.with_inupt(E2)", 'verdict': 'one evaluation per element, in order'})
+    from .cli import run_jawk, show
+    DEMOS = [('(map .l (+ . ^.b))', '{"l":[1,2,3],"b":10}', [11, 12, 13]), ('(map .l (get . "x"))', '{"l":[{"x":1},{},{"x":3}]}', [1, 3]), ('(filter .l (> . ^.b))', '{"l":[1,5,2,7],"b":2}', [5, 7]),
+             ('(filter .l .)', '{"l":[true,1,"true",false,true]}', [True, True]), ('(map [] .)', 'null', []), ('(filter [1,2] (= . 2))', 'null', [2])]
+    for c in fam.candidates:
+        c.status = 'unit'
+        for expr, stdin, exp in DEMOS:
+            r = run_jawk(ctx, ['--select', expr + '=r', '--style', 'consise'], stdin.encode())
+            try: got = json.loads(show(r['stdout'])).get('r')
+            except Exception: got = show(r['stdout'])
+            c.replay = {'argv': ['--select', expr + '=r'], 'stdin': stdin, 'expected': exp, 'actual': got}
+            if got != exp: c.status = 'reproduced'; break
